@@ -19,7 +19,19 @@ func runC12(c *Ctx) {
 	c.Rule("O12.2", "ids: the first instance gets 0, each later instance the number of instances created before it (one increment per creation); the id reaches GunDeps.InstanceID")
 	c.Rule("O12.3", "instance start is cut short only by the named causes: the start context's cancel function is called only in the out-of-ammo case of awaitRun and in the shared-RPS-schedule finish callback")
 	c.Rule("O12.4", "the startup profile never stops a running instance: the run context's cancel function is called only by all-instances-finished detection; instances run under the run context, not the start context")
+	c.Rule("O12.6", "a pause in the startup profile really pauses: the schedules the profile is built from compute their finish time from a start time that was set (the rule of O2.11: start state is read only after the start) - an empty first part (instance_step from 0, a leading const 0 pause) that reported the zero time as its finish would make every later instance look overdue and start at once")
 	c.Rule("O12.5", "instance_step composition: once(from), then per step const(0, stepDuration) followed by once(step), for from+step <= i <= to, returned as one composite in that order")
+	if sp12 := c.P.SSAPkg("core/schedule"); sp12 != nil {
+		var fns12 []*ssa.Function
+		for _, f := range PkgFuncs(sp12) {
+			if IsProdFile(c.P.File(f.Pos())) {
+				fns12 = append(fns12, f)
+			}
+		}
+		c02ReadAfterStart(c, "O12.6", fns12)
+	} else {
+		c.Anchor("O12.6", "package core/schedule")
+	}
 	P := c.P
 	si := P.Func("core/engine", "instancePool", "startInstances")
 	runAsync := P.Func("core/engine", "instancePool", "runAsync")
